@@ -1,0 +1,35 @@
+//go:build verif
+
+// Contracts for the deductive checks under /verif (comment-only; compiled only with -tags verif).
+
+package bloombits
+
+// Representation invariant of a Generator (established by NewGenerator): the section count is
+// a multiple of 8 and every one of the 2048 bit rows holds sections/8 bytes.
+//@ macro genwf(b) = b != nil && b.sections % 8 == 0 && b.sections <= 1099511627776 && b.nextBit <= b.sections
+//@   && (forall i int :: 0 <= i && i < 2048 ==> len(b.blooms[i]) == int(b.sections / 8))
+
+//@ func NewGenerator
+//@   requires sections <= 1099511627776
+//@   ensures[C16] err == nil <==> sections % 8 == 0
+//@   ensures[C16] err == nil && sections <= 1099511627776 ==> genwf(result0) && result0.nextBit == 0 && result0.sections == sections
+//@   loop 1 invariant[C16] 0 <= i && i <= 2048 && b != nil && b.sections == sections && b.nextBit == 0 && (forall j int :: 0 <= j && j < i ==> len(b.blooms[j]) == int(sections / 8))
+//@   nopanic[C16]
+
+// A bloom filter is transposed into bit column nextBit of all 2048 rows without ever indexing
+// outside a row; the row lengths (the invariant) are preserved.
+//@ func Generator.AddBloom
+//@   requires genwf(b)
+//@   ensures[C16] result == nil <==> old(b.nextBit < b.sections && b.nextBit == index)
+//@   ensures[C16] result == nil ==> b.nextBit == old(b.nextBit) + 1
+//@   ensures[C16] result != nil ==> b.nextBit == old(b.nextBit)
+//@   ensures[C16] genwf(b)
+//@   loop 1 invariant[C16] 0 <= i && i <= 2048
+//@   nopanic[C16]
+
+// Every bit of the 2048-bit bloom has a row: a fully generated batch answers for exactly the
+// indices below the bloom bit length.
+//@ func Generator.Bitset
+//@   requires genwf(b)
+//@   ensures[C16] err == nil <==> (b.nextBit == b.sections && idx < 2048)
+//@   nopanic[C16]
